@@ -13,7 +13,7 @@ import (
 )
 
 const (
-	MaxTasks = 16
+	MaxTasks = 32 // harness tasks (at most 16) plus goroutines the library itself starts
 	MaxSites = 16384
 	TapeCap  = 1 << 18
 )
@@ -145,6 +145,8 @@ const (
 	AbortNone     = 0
 	AbortDeadlock = 1
 	AbortBudget   = 2
+	AbortQuiesce  = 3 // all harness tasks are done, goroutines started by the library are still parked: they are unwound
+	AbortSpawn    = 4 // a goroutine started by the library panicked (a real program would have crashed)
 )
 
 type abortSentinel struct{}
@@ -176,6 +178,8 @@ var (
 	tinjkind  [MaxTasks + 1]int32 // 0: panic value is an error, 1: a plain string
 	tinjfired [MaxTasks + 1]int32
 	tprio     [MaxTasks]int32
+	tparent   [MaxTasks]int32 // harness task a spawned goroutine descends from (itself for harness tasks)
+	nharness  int32           // harness tasks of this run (ids 0..nharness-1); higher ids were spawned by the library
 
 	abort       int32
 	abortWho    int32
@@ -422,10 +426,12 @@ func ResetRunStats() {
 //go:norace
 func BeginRun(c RunConfig) {
 	ntasks = int32(c.Tasks)
+	nharness = int32(c.Tasks)
 	for i := 0; i < MaxTasks; i++ {
 		tstate[i] = tsUnused
 		tblock[i] = nil
 		tprio[i] = 0
+		tparent[i] = int32(i)
 	}
 	for i := 0; i < c.Tasks; i++ {
 		tstate[i] = tsRunnable
@@ -710,9 +716,23 @@ func TaskDone(id int) {
 			// nobody runnable: either all done, or the rest is blocked for ever
 			for i := 0; i < int(ntasks); i++ {
 				if tstate[i] == tsBlocked {
-					doAbort(AbortDeadlock, i)
+					if i < int(nharness) {
+						doAbort(AbortDeadlock, i)
+					} else if abort == 0 {
+						// only goroutines the library started are left, parked: the harness
+						// callers are done, so this is quiescence, not a deadlock of a caller
+						doAbort(AbortQuiesce, i)
+					}
 					to = i
 					break
+				}
+			}
+			if abort == AbortQuiesce {
+				for i := 0; i < int(nharness); i++ {
+					if tstate[i] == tsBlocked {
+						abort = AbortDeadlock
+						abortWho = int32(i)
+					}
 				}
 			}
 		}
@@ -735,6 +755,16 @@ func Cur() int {
 		return -1
 	}
 	return int(turn)
+}
+
+// CurRoot returns the harness task the running goroutine descends from (-1 outside ModeSim).
+//
+//go:norace
+func CurRoot() int {
+	if mode != ModeSim {
+		return -1
+	}
+	return int(tparent[turn])
 }
 
 // Aborted reports whether the current run was aborted and why.
